@@ -59,9 +59,13 @@ func (d *DAGMutex[T]) RLock(ids ...T) {
 
 // RUnlock unlocks reading for all given entities.
 // It does not affect other simultaneous readers.
+// It panics if one of the entities is not locked for reading.
 func (d *DAGMutex[T]) RUnlock(ids ...T) {
-	for _, mutex := range d.unregisterMutexes(ids...) {
-		mutex.RUnlock()
+	d.Mutex.Lock()
+	defer d.Mutex.Unlock()
+
+	for _, id := range ids {
+		d.unregisterMutex(id, (*StarvingMutex).RUnlock)
 	}
 }
 
@@ -76,20 +80,15 @@ func (d *DAGMutex[T]) Lock(id T) {
 }
 
 // Unlock unlocks the given entity for writing.
+// It panics if the entity is not locked for writing.
 //
 // As with Mutexes, a locked DAGMutex is not associated with a particular goroutine. One goroutine may RLock (Lock) an
 // entity within DAGMutex and then arrange for another goroutine to RUnlock (Unlock) it.
 func (d *DAGMutex[T]) Unlock(id T) {
 	d.Mutex.Lock()
-	mutex := d.unregisterMutex(id)
-	if mutex == nil {
-		d.Mutex.Unlock()
+	defer d.Mutex.Unlock()
 
-		return
-	}
-	d.Mutex.Unlock()
-
-	mutex.Unlock()
+	d.unregisterMutex(id, (*StarvingMutex).Unlock)
 }
 
 func (d *DAGMutex[T]) registerMutexes(ids ...T) (mutexes []*StarvingMutex) {
@@ -116,34 +115,21 @@ func (d *DAGMutex[T]) registerMutex(id T) (mutex *StarvingMutex) {
 	return mutex
 }
 
-func (d *DAGMutex[T]) unregisterMutexes(ids ...T) (mutexes []*StarvingMutex) {
-	d.Mutex.Lock()
-	defer d.Mutex.Unlock()
-
-	mutexes = make([]*StarvingMutex, 0)
-	for _, id := range ids {
-		if mutex := d.unregisterMutex(id); mutex != nil {
-			mutexes = append(mutexes, mutex)
-		}
-	}
-
-	return mutexes
-}
-
-func (d *DAGMutex[T]) unregisterMutex(id T) (mutex *StarvingMutex) {
-	if count, _ := d.consumerCounter.Get(id); count == 1 {
-		d.consumerCounter.Delete(id)
-		d.mutexes.Delete(id)
-
-		return nil
-	}
-
+// unregisterMutex releases the lock of the given entity with the given unlock function and removes the consumer
+// registration. The lock is released first: releasing panics if the entity is not locked in that mode, in which case
+// the registration is left untouched.
+func (d *DAGMutex[T]) unregisterMutex(id T, unlock func(*StarvingMutex)) {
 	mutex, mutexExists := d.mutexes.Get(id)
 	if !mutexExists {
 		panic(ierrors.Errorf("called Unlock or RUnlock too often for entity with %v", id))
 	}
-	count, _ := d.consumerCounter.Get(id)
-	d.consumerCounter.Set(id, count-1)
 
-	return mutex
+	unlock(mutex)
+
+	if count, _ := d.consumerCounter.Get(id); count == 1 {
+		d.consumerCounter.Delete(id)
+		d.mutexes.Delete(id)
+	} else {
+		d.consumerCounter.Set(id, count-1)
+	}
 }
